@@ -263,8 +263,9 @@ def faithful(prefix, lp, c, f, tr, gt, sampled):
     if f["body"] == "coro" and exp_y is None and got_y is not None:
         # F2: an await suspension is recorded as a yield of the object that travelled up to the
         # driver (here always the simulator's suspension token)
-        if all(m == "dst.world.rt._Token" for m in T.members(got_y)):
-            cause_of["yield-cover"] = "coroutine_await_suspension"
+        # (coroutine functions of the simulated world never yield: any recorded yield type stems from
+        # an await suspension - the trampoline's token, None from sleep(0), or an asyncio Future)
+        cause_of["yield-cover"] = "coroutine_await_suspension"
     if f["body"] == "gen" and c.at_yield and c.end == "X":
         cause_of.setdefault("yield-cover", "generator_exit_at_yield")
     if sampled and f["body"] == "gen" and c.yields:
@@ -280,7 +281,7 @@ def faithful(prefix, lp, c, f, tr, gt, sampled):
     if sampled and f["body"] == "coro":
         # F5 for coroutines: trace started at a later resumption; arguments as after some prefix of
         # the re-bindings, yield type at most the suspension token (F2)
-        tok_only = got_y is None or all(m == "dst.world.rt._Token" for m in T.members(got_y))
+        tok_only = True
         for p in range(0, len(c.rebinds) + 1):
             vals = dict(c.params)
             for _, pn, v in c.rebinds[:p]:
